@@ -12,14 +12,21 @@ from sa.sm import call_kw, const_str, dotted, find_calls, norm
 from . import common
 
 REFERENCE = {"STATE": "CodeGenerator.state_index", "PARAM": "CodeGenerator.parameter_index", "MONITOR": "CodeGenerator.monitor_index"}
-FLOORS = {"STATE": 11, "PARAM": 5, "MONITOR": 2}
+FLOORS = {"STATE": 9, "PARAM": 5, "MONITOR": 2}  # + 2 matrix producers in sympytools (C20 only)
 
 
-def slot_families(ctx: Ctx, rule: str, only_family: str | None = None):
+def slot_families(ctx: Ctx, rule: str, only_family: str | None = None, producers=None, check_ru: bool = True, check_guard: bool = True, floor: bool = True):
+    """producers: optional predicate(Producer) -> bool selecting the producers that matter for the calling property
+    (the family's reference producer is always kept).  By default the symbolic matrices of sympytools (C20) are excluded."""
     sm = ctx.sm
     sa = slots.SlotAnalysis(sm).run()
+    if producers is None:
+        producers = lambda p: not p.func.rel.endswith("sympytools.py")  # noqa: E731
+    sa.producers = [p for p in sa.producers if producers(p) or p.func.qualname in REFERENCE.values()]
     ru_ok, ru_why, ru_node = slots.remove_unused_is_post_sort_filter(sm)
     sf = sm.func("ode.py", "ODE.sorted_assignments")
+    if not check_ru:
+        ru_ok = True
     ctx.check(
         ru_ok,
         rule,
@@ -48,6 +55,9 @@ def slot_families(ctx: Ctx, rule: str, only_family: str | None = None):
         for p in prods:
             key = p.func.key(f"{fam}::{p.kind}")
             where = p.func.where(p.node)
+            if not check_guard and not p.guard_ok:
+                ctx.ok(rule, key, "counter discipline of this producer is not this property's subject (see C04 / C05-C07)", where)
+                continue
             if p.desc.opaque:
                 ctx.fail(rule, key, f"{p.func.qualname}: the sequence that numbers the {fam} slots ({p.desc.show()}) cannot be related to the model's accessors", where)
                 continue
@@ -58,7 +68,7 @@ def slot_families(ctx: Ctx, rule: str, only_family: str | None = None):
 
             same = strip(p.desc) == strip(ref.desc)
             ctx.check(
-                same and p.guard_ok,
+                same and (p.guard_ok or not check_guard),
                 rule,
                 key,
                 f"{fam} slots numbered over {p.desc.show()}",
@@ -70,7 +80,7 @@ def slot_families(ctx: Ctx, rule: str, only_family: str | None = None):
     for fam in REFERENCE:
         if only_family and fam != only_family:
             continue
-        if len(by_fam.get(fam, [])) < FLOORS[fam] and not [o for o in ctx.failures() if o.rule == rule]:
+        if floor and len(by_fam.get(fam, [])) < FLOORS[fam] and not [o for o in ctx.failures() if o.rule == rule]:
             ctx.broken(f"slot family {fam}: only {len(by_fam.get(fam, []))} producers found, {FLOORS[fam]} were confirmed by hand; the extraction no longer matches the code")
     for f, n, t in sa.unclassified:
         ctx.notes.append(f"unclassified index producer (not a slot of an IndexedBase family): {f.qualname}: {t}")
@@ -316,7 +326,7 @@ def counts(ctx: Ctx, rule: str):
 
 def run(ctx: Ctx):
     ctx.assume("the sympy printers print Indexed(X, i) as X[i] (vetted printer rows); lark delivers children in text order")
-    ctx.rule("R04.a", "slot families: every producer of a (name, index) pair of a family numbers its slots over a sequence order-equivalent to the family's index function", floor=18)
+    ctx.rule("R04.a", "slot families: every producer of a (name, index) pair of a family numbers its slots over a sequence order-equivalent to the family's index function", floor=17)
     slot_families(ctx, "R04.a")
     ctx.rule("R04.a2", "index dictionaries and unpacking statements pair each element with the index of that same element", floor=8)
     index_dicts(ctx, "R04.a2")
